@@ -56,12 +56,21 @@ Theorem C30_coerce_table :
      [TF64; TF64; TF64; TF64; TF64; TF64]].
 Proof. exact coerce_table. Qed.
 
-(* class union-all-mixed-types (shape predicate) is inhabited by UNION ALL only *)
-Theorem C30_union_mixed_witness :
-  let q := QSetOp SUnion true (QProject (QTable 0 2) [ECol 1]) (QProject (QTable 0 2) [ECol 0]) in
-  schema_of [[TI64; TI32]] q = Some [TI32] /\ known_union_mixed [[TI64; TI32]] q = true
-  /\ known_union_mixed [[TI64; TI32]] (QSetOp SUnion false (QProject (QTable 0 2) [ECol 1]) (QProject (QTable 0 2) [ECol 0])) = false.
-Proof. exact union_mixed_witness. Qed.
+(* regression (class union-all-mixed-types for numeric pairs, closed by fix: f5f2dbc): UNION inputs are planned with
+   the binder's common type *)
+Theorem C30_union_regression :
+  let u a b := QSetOp SUnion true (QProject (QTable 0 3) [ECol a]) (QProject (QTable 0 3) [ECol b]) in
+  schema_of [[TI64; TI32; TF32]] (u 1%nat 0%nat) = Some [TI64] /\ schema_of [[TI64; TI32; TF32]] (u 0%nat 1%nat) = Some [TI64]
+  /\ schema_of [[TI64; TI32; TF32]] (u 1%nat 2%nat) = Some [TF64] /\ schema_of [[TI64; TI32; TF32]] (u 2%nat 2%nat) = Some [TF32]
+  /\ schema_strict [[TI64; TI32; TF32]] (u 1%nat 2%nat) = None
+  /\ map (fun a => map (union_ty a) [TI8; TI16; TI32; TI64; TF32; TF64]) [TI8; TI16; TI32; TI64; TF32; TF64]
+     = [[TI8;  TI16; TI32; TI64; TF64; TF64];
+        [TI16; TI16; TI32; TI64; TF64; TF64];
+        [TI32; TI32; TI32; TI64; TF64; TF64];
+        [TI64; TI64; TI64; TI64; TF64; TF64];
+        [TF64; TF64; TF64; TF64; TF32; TF64];
+        [TF64; TF64; TF64; TF64; TF64; TF64]].
+Proof. exact union_regression. Qed.
 
 Print Assumptions C30_tyof_sound.
 Print Assumptions C30_rows_conform.
@@ -70,4 +79,4 @@ Print Assumptions C30_schema_width.
 Print Assumptions C30_i32_arith_regression.
 Print Assumptions C30_case_fold_regression.
 Print Assumptions C30_coerce_table.
-Print Assumptions C30_union_mixed_witness.
+Print Assumptions C30_union_regression.
